@@ -3,16 +3,20 @@
 package contracts_test
 
 // C15 harness, Manager level: the same controlled schedules as the locker harness, but every
-// call goes through the real Manager.Lock / Manager.Unlock / Manager.LockV2Contract on a real
-// host node (sqlite store), with contracts that exist, are not good for modification, or are
-// missing, so that every error path that must release the lock is taken under contention.
+// call goes through the real Manager.Lock / Manager.Unlock / Manager.LockV2Contract /
+// Manager.CheckIntegrity / Manager.V2CheckIntegrity — every user of the contract lock inside the
+// manager — on a real host node (sqlite store, a volume with stored sectors), with contracts
+// that exist, are not good for modification, are missing, or whose sector roots do not match
+// their revision, so that every path that must release the lock is taken under contention.
 
 import (
 	"context"
 	"os"
+	"path/filepath"
 	"sync"
 	"testing"
 
+	rhp2 "go.sia.tech/core/rhp/v2"
 	proto4 "go.sia.tech/core/rhp/v4"
 	"go.sia.tech/core/types"
 	rhp4 "go.sia.tech/coreutils/rhp/v4"
@@ -31,17 +35,37 @@ func TestVerifC15Manager(t *testing.T) {
 	node := testutil.NewHostNode(t, hostKey, network, genesis, zap.NewNop())
 	cm := node.Contracts
 
+	res := make(chan error, 1)
+	if _, err := node.Volumes.AddVolume(context.Background(), filepath.Join(t.TempDir(), "storage.dat"), 16, res); err != nil {
+		t.Fatal(err)
+	} else if err := <-res; err != nil {
+		t.Fatal(err)
+	}
+	storeSectors := func(tag byte, n int) (roots []types.Hash256) {
+		for i := 0; i < n; i++ {
+			var sector [rhp2.SectorSize]byte
+			sector[0], sector[1], sector[2] = 0xc1, tag, byte(i)
+			root := rhp2.SectorRoot(&sector)
+			if err := node.Volumes.Write(root, &sector); err != nil {
+				t.Fatal(err)
+			}
+			roots = append(roots, root)
+		}
+		return roots
+	}
+
 	uc := types.UnlockConditions{
 		PublicKeys:         []types.UnlockKey{renterKey.PublicKey().UnlockKey(), hostKey.PublicKey().UnlockKey()},
 		SignaturesRequired: 2,
 	}
-	addV1 := func(tag byte, windowStart uint64) types.FileContractID {
+	addV1 := func(tag byte, windowStart, filesize uint64) (types.FileContractID, contracts.SignedRevision) {
 		rev := contracts.SignedRevision{
 			Revision: types.FileContractRevision{
 				FileContract: types.FileContract{
 					UnlockHash:  uc.UnlockHash(),
 					WindowStart: windowStart,
 					WindowEnd:   windowStart + 100,
+					Filesize:    filesize,
 				},
 				ParentID:         types.FileContractID{0xc1, tag},
 				UnlockConditions: uc,
@@ -50,40 +74,149 @@ func TestVerifC15Manager(t *testing.T) {
 		if err := cm.AddContract(rev, []types.Transaction{}, types.ZeroCurrency, contracts.Usage{}); err != nil {
 			t.Fatal(err)
 		}
-		return rev.Revision.ParentID
+		return rev.Revision.ParentID, rev
 	}
-	good := addV1(1, 1000) // good for modification
-	tooLate := addV1(2, 2) // exists, but too close to its proof window: isGoodForModification fails
+	good, goodRev := addV1(1, 1000, 0) // good for modification; gets two sectors below
+	tooLate, _ := addV1(2, 2, 0)       // exists, but too close to its proof window: isGoodForModification fails
+	// good for modification, but its revision claims one sector and there is no root: the body of
+	// CheckIntegrity returns an error (after the release has been deferred)
+	badV1, _ := addV1(3, 1000, rhp2.SectorSize)
+	// good for modification, one root as the revision says, but the revision's Merkle root (zero)
+	// is not the root of that sector: the second error return of the body
+	rootV1, _ := addV1(4, 1000, rhp2.SectorSize)
+	cm.VerifC15SetRoots(rootV1, storeSectors(3, 1))
 
-	fc := types.V2FileContract{
-		ProofHeight:      500,
-		ExpirationHeight: 600,
-		RenterPublicKey:  renterKey.PublicKey(),
-		HostPublicKey:    hostKey.PublicKey(),
+	{ // two stored sectors for the good v1 contract, the way the RHP2/3 handlers add them
+		updater, err := cm.ReviseContract(good)
+		if err != nil {
+			t.Fatal(err)
+		}
+		roots := storeSectors(1, 2)
+		for _, root := range roots {
+			updater.AppendSector(root)
+		}
+		goodRev.Revision.RevisionNumber++
+		goodRev.Revision.Filesize = uint64(len(roots)) * rhp2.SectorSize
+		goodRev.Revision.FileMerkleRoot = rhp2.MetaRoot(roots)
+		if err := updater.Commit(goodRev, contracts.Usage{}); err != nil {
+			t.Fatal(err)
+		}
+		updater.Close()
 	}
-	txn := types.V2Transaction{FileContracts: []types.V2FileContract{fc}}
-	if err := cm.AddV2Contract(rhp4.TransactionSet{Transactions: []types.V2Transaction{txn}, Basis: node.Chain.Tip()}, proto4.Usage{}); err != nil {
-		t.Fatal(err)
+
+	addV2 := func(proofHeight uint64, filesize uint64) (types.FileContractID, types.V2FileContract) {
+		fc := types.V2FileContract{
+			ProofHeight:      proofHeight,
+			ExpirationHeight: proofHeight + 100,
+			RenterPublicKey:  renterKey.PublicKey(),
+			HostPublicKey:    hostKey.PublicKey(),
+			Filesize:         filesize,
+			Capacity:         filesize,
+		}
+		txn := types.V2Transaction{FileContracts: []types.V2FileContract{fc}}
+		if err := cm.AddV2Contract(rhp4.TransactionSet{Transactions: []types.V2Transaction{txn}, Basis: node.Chain.Tip()}, proto4.Usage{}); err != nil {
+			t.Fatal(err)
+		}
+		return txn.V2FileContractID(txn.ID(), 0), fc
 	}
-	v2id := txn.V2FileContractID(txn.ID(), 0)
+	v2id, v2fc := addV2(500, 0)
+	badV2, _ := addV2(501, rhp2.SectorSize)  // claims one sector, has no roots
+	rootV2, _ := addV2(502, rhp2.SectorSize) // one root, not the one its Merkle root (zero) commits to
+	cm.VerifC15SetRoots(rootV2, storeSectors(4, 1))
+	{ // two stored sectors for the v2 contract
+		roots := storeSectors(2, 2)
+		v2fc.RevisionNumber++
+		v2fc.Filesize = uint64(len(roots)) * rhp2.SectorSize
+		v2fc.Capacity = v2fc.Filesize
+		v2fc.FileMerkleRoot = proto4.MetaRoot(roots)
+		sigHash := node.Chain.TipState().ContractSigHash(v2fc)
+		v2fc.RenterSignature = renterKey.SignHash(sigHash)
+		v2fc.HostSignature = hostKey.SignHash(sigHash)
+		if err := cm.ReviseV2Contract(v2id, v2fc, roots, proto4.Usage{}); err != nil {
+			t.Fatal(err)
+		}
+	}
 	missing := types.FileContractID{0xc1, 0xff}
 
-	// oracle bits for the model, from what the harness created (checked once against the manager)
-	ids := []types.FileContractID{good, tooLate, v2id, missing}
+	// oracle bits for the model, from what the harness created (checked once against the manager
+	// below, with nobody else around)
+	ids := []types.FileContractID{good, tooLate, v2id, missing, badV1, badV2, rootV1, rootV2}
+	isCheck := func(api int) bool { return api >= 2 }
 	bad := func(api, id int) bool {
-		if api == 0 {
-			return id != 0 // Manager.Lock: only the good v1 contract passes
+		if api == 0 || api == 2 {
+			return id != 0 && id != 4 && id != 6 // Manager.Lock (also inside CheckIntegrity): the good v1 contracts pass
 		}
-		return id != 2 // LockV2Contract: only the v2 contract exists
+		return id != 2 && id != 5 && id != 7 // LockV2Contract (also inside V2CheckIntegrity): the v2 contracts exist
 	}
+	checkOK := func(api, id int) bool { return id == 0 || id == 2 }
 	if _, err := cm.Contract(good); err != nil {
 		t.Fatal(err)
 	} else if _, err := cm.Contract(tooLate); err != nil {
 		t.Fatal(err)
+	} else if _, err := cm.Contract(badV1); err != nil {
+		t.Fatal(err)
 	} else if _, err := cm.V2Contract(v2id); err != nil {
+		t.Fatal(err)
+	} else if _, err := cm.V2Contract(badV2); err != nil {
 		t.Fatal(err)
 	} else if _, err := cm.Contract(missing); err == nil {
 		t.Fatal("missing contract exists")
+	}
+
+	call := func(ctx context.Context, api, id int) (func(), error) {
+		switch api {
+		case 0:
+			if _, err := cm.Lock(ctx, ids[id]); err != nil {
+				return nil, err
+			}
+			return func() { cm.Unlock(ids[id]) }, nil
+		case 1:
+			_, unlock, err := cm.LockV2Contract(ids[id])
+			return unlock, err
+		}
+		check := cm.CheckIntegrity
+		if api == 3 {
+			check = cm.V2CheckIntegrity
+		}
+		results, _, err := check(ctx, ids[id])
+		if err != nil {
+			return nil, err
+		}
+		// the check's goroutine sends one result per sector on a channel of capacity 1
+		drained := make(chan struct{})
+		go func() {
+			for range results {
+			}
+			close(drained)
+		}()
+		return func() { <-drained }, nil
+	}
+	// the oracle bits against the manager, uncontended.  Whether these calls leave the lock table
+	// clean is for the cases below to find out and report: here a dirty table is replaced, so that
+	// no call of this loop can block behind a leaked entry.
+	for api := 0; api < 4; api++ {
+		for id := range ids {
+			var unlock func()
+			var err error
+			panicked := func() (p bool) {
+				defer func() { p = recover() != nil }() // a panicking call is reported by the cases, with its schedule
+				unlock, err = call(context.Background(), api, id)
+				return false
+			}()
+			want := !bad(api, id) && (!isCheck(api) || checkOK(api, id))
+			if !panicked && (err == nil) != want {
+				t.Fatalf("api %d id %d: err=%v, harness expects success=%v", api, id, err, want)
+			}
+			if !panicked && err == nil {
+				func() {
+					defer func() { recover() }()
+					unlock()
+				}()
+			}
+			if snap := cm.VerifC15Snapshot(ids); len(snap) != 0 {
+				cm.VerifC15Reset()
+			}
+		}
 	}
 
 	thorough := os.Getenv("VERIF_TIER") == "thorough"
@@ -92,21 +225,14 @@ func TestVerifC15Manager(t *testing.T) {
 		maxThreads = 6
 	}
 	be := &contracts.VerifC15Backend{
-		Name: "manager", IDs: len(ids), APIs: 2, MaxThreads: maxThreads,
-		Lock: func(ctx context.Context, api, id int) (func(), error) {
-			if api == 0 {
-				if _, err := cm.Lock(ctx, ids[id]); err != nil {
-					return nil, err
-				}
-				return func() { cm.Unlock(ids[id]) }, nil
-			}
-			_, unlock, err := cm.LockV2Contract(ids[id])
-			return unlock, err
-		},
+		Name: "manager", IDs: len(ids), APIs: 4, MaxThreads: maxThreads,
+		Lock:        call,
+		IsCheck:     isCheck,
+		CheckOK:     checkOK,
 		Snapshot:    func() map[int][2]int { return cm.VerifC15Snapshot(ids) },
 		Mu:          func() *sync.Mutex { return cm.VerifC15Mu() },
 		Bad:         bad,
-		Cancellable: func(api int) bool { return api == 0 },
+		Cancellable: func(api int) bool { return api == 0 || api == 2 },
 		Reset:       func() { cm.VerifC15Reset() },
 	}
 	if contracts.VerifC15Drive(t, em, be, verifN(150), verifCaseRand) {
